@@ -48,10 +48,13 @@ AddLoose(c) ==
     /\ c \notin Present /\ Needs(c) \subseteq Present
     /\ loose' = loose \cup {c} /\ UNCHANGED <<packs, refs, oldL, oldP, alt>>
     /\ Log([a |-> "add_loose", c |-> c, n |-> "", s |-> {}])
-\* add_object of content that is already stored loose freshens the file's mtime
+\* add_object of content that is stored already and has no recent copy: a loose file has its mtime freshened,
+\* an object that is only packed gets a (recent) loose copy -- either way it is recent again
 ReAdd(c) ==
-    /\ c \in loose /\ c \in oldL
-    /\ oldL' = oldL \ {c} /\ UNCHANGED <<loose, packs, refs, oldP, alt>>
+    /\ c \in Local /\ AllOld(c)
+    /\ IF c \in loose THEN oldL' = oldL \ {c} /\ UNCHANGED loose
+                      ELSE loose' = loose \cup {c} /\ UNCHANGED oldL
+    /\ UNCHANGED <<packs, refs, oldP, alt>>
     /\ Log([a |-> "re_add", c |-> c, n |-> "", s |-> {}])
 \* two weeks and a day pass: every file present now is older than every grace period
 Age ==
@@ -116,6 +119,13 @@ GcKeep ==
          /\ oldP' = (IF keep = {} THEN <<>> ELSE <<FALSE>>)
     /\ loose' = {} /\ oldL' = {} /\ UNCHANGED <<refs, alt>>
     /\ Log([a |-> "gc_default", c |-> 0, n |-> "", s |-> {}])
+\* gc with gc.pruneExpire = never: nothing is ever pruned (the operation may also refuse the setting)
+GcNever ==
+    /\ Local # {}
+    /\ \/ /\ packs' = <<Local>> /\ oldP' = <<FALSE>> /\ loose' = {} /\ oldL' = {}
+       \/ UNCHANGED <<loose, packs, oldL, oldP>>
+    /\ UNCHANGED <<refs, alt>>
+    /\ Log([a |-> "gc_never", c |-> 0, n |-> "", s |-> {}])
 \* DiskObjectStore.prune(): removes stale temporary files only; never an object
 Prune    == /\ Present # {} /\ UNCHANGED <<loose, packs, refs, oldL, oldP, alt>> /\ Log([a |-> "prune", c |-> 0, n |-> "", s |-> {}])
 PackRefs == /\ UNCHANGED <<loose, packs, refs, oldL, oldP, alt>> /\ Log([a |-> "pack_refs", c |-> 0, n |-> "", s |-> {}])
@@ -131,7 +141,7 @@ Next ==
        \/ \E n \in Names : DelRef(n)
        \/ \E c \in Objects : ReAdd(c)
        \/ Age \/ Prune \/ GitMaintLoose
-       \/ PackLoose \/ Repack \/ GcPrune \/ GcKeep \/ PackRefs \/ Midx \/ CGraph
+       \/ PackLoose \/ Repack \/ GcPrune \/ GcKeep \/ GcNever \/ PackRefs \/ Midx \/ CGraph
 
 Spec == Init /\ [][Next]_vars
 
@@ -174,7 +184,7 @@ DirectedPrefix == IF hist[1].a = "add_alt" \/ hist[3].c = 2 THEN 5 ELSE IF hist[
 NextMaint ==
     /\ Len(hist) < MaxLen + (DirectedPrefix - 3)
     /\ \/ \E c \in Objects : ReAdd(c)
-       \/ Age \/ Prune \/ GitMaintLoose \/ PackLoose \/ Repack \/ GcPrune \/ GcKeep \/ Midx
+       \/ Age \/ Prune \/ GitMaintLoose \/ PackLoose \/ Repack \/ GcPrune \/ GcKeep \/ GcNever \/ Midx
 SpecD == (InitD \/ InitD4 \/ InitD5 \/ InitD6) /\ [][NextMaint]_vars
 
 \* maintenance never loses a reachable object
